@@ -429,7 +429,9 @@ PseudoFails(ev, pre) ==
             \* x : scalar, y : array;  x = sum |y|^2
             IF IsScalar(x) /\ x.exact /\ AllExact(y) THEN F(x.v = <<Norm2(Elem(y)), 0>>, c)
             ELSE IF IsArray(x) /\ Rank(x) = 0 /\ AllExact(x) /\ AllExact(y)
-            THEN F(ValAt(Elem(x), <<>>) = <<Norm2(Elem(y)), 0>>, c)
+            THEN \* a rank-0 array may still carry an unreduced label word: its number is the reduced one
+                 F(LabelsOK(Labels(x)) /\ Remaining(Labels(x)) = <<>>
+                   /\ VSgn(ValAt(Elem(x), <<>>), ResolveSign(Labels(x))) = <<Norm2(Elem(y)), 0>>, c)
             ELSE {}
        [] ev.args.how = "true" -> F(x.t = "bool" /\ x.v = TRUE, c)
        [] ev.args.how = "all_or_none" ->
